@@ -78,11 +78,33 @@ func runC19(rc *RunCtx) {
 	must(h.Policy("p", c19Policy))
 	_, err = h.RootWrite("rec/data/x", map[string]any{"value": "v0"})
 	must(err)
+	// a third of the runs create the token against a token role that carries a
+	// period or an explicit maximum (renewals of such tokens consult the role)
+	viaRole := tp.Pick(3) == 0
+	rc.Cfg("token_role", viaRole)
+	var tok string
 	baseline := keysUnder(disk, "sys/token/", "sys/expire/", "logical/")
-	tok, _, err := h.CreateToken("", map[string]any{"policies": []string{"p"}, "num_uses": n, "ttl": "1h"})
-	must(err)
+	if viaRole {
+		rd := map[string]any{"allowed_policies": "p", "renewable": true}
+		if tp.Pick(2) == 0 {
+			rd["token_period"] = "1h"
+		} else {
+			rd["token_explicit_max_ttl"] = "4h"
+		}
+		_, err = h.RootWrite("auth/token/roles/r19", rd)
+		must(err)
+		baseline = keysUnder(disk, "sys/token/", "sys/expire/", "logical/")
+		r, err := h.Do("setup", Req{Op: logical.UpdateOperation, Path: "auth/token/create/r19", Token: h.Root, Data: map[string]any{"policies": []string{"p"}, "num_uses": n, "ttl": "1h"}})
+		if err != nil || r == nil || r.Auth == nil {
+			panic(fmt.Sprint("role token: ", err, r))
+		}
+		tok = r.Auth.ClientToken
+	} else {
+		tok, _, err = h.CreateToken("", map[string]any{"policies": []string{"p"}, "num_uses": n, "ttl": "1h"})
+		must(err)
+	}
 
-	kinds := []string{"read", "write", "denied", "fail", "creds", "lookup", "child"}
+	kinds := []string{"read", "write", "denied", "fail", "creds", "lookup", "child", "renew", "renew"}
 	mkReq := func(k string, i int) Req {
 		switch k {
 		case "read":
@@ -99,6 +121,8 @@ func runC19(rc *RunCtx) {
 			return Req{Op: logical.ReadOperation, Path: "auth/token/lookup-self", Token: tok}
 		case "child":
 			return Req{Op: logical.UpdateOperation, Path: "auth/token/create", Token: tok, Data: map[string]any{"policies": []string{"p"}}}
+		case "renew":
+			return Req{Op: logical.UpdateOperation, Path: "auth/token/renew-self", Token: tok}
 		}
 		panic(k)
 	}
@@ -128,6 +152,8 @@ func runC19(rc *RunCtx) {
 		switch k {
 		case "lookup":
 			o.effect = err == nil && resp != nil && !resp.IsError() && resp.Data != nil
+		case "renew":
+			o.effect = err == nil && resp != nil && !resp.IsError() && resp.Auth != nil
 		case "child":
 			o.effect = (resp != nil && resp.Auth != nil) || strings.Contains(o.err, "restricted use token") || strings.Contains(o.err, "parent token lookup failed")
 		default:
@@ -138,7 +164,7 @@ func runC19(rc *RunCtx) {
 				o.secret = id
 			}
 		}
-		if resp != nil && resp.Auth != nil {
+		if resp != nil && resp.Auth != nil && k != "renew" {
 			o.childTok = resp.Auth.ClientToken
 		}
 		return o
@@ -202,6 +228,9 @@ func runC19(rc *RunCtx) {
 	var plan []string
 	for i := 0; i < m; i++ {
 		plan = append(plan, kinds[tp.Pick(len(kinds))])
+	}
+	if viaRole && m > 1 {
+		plan[tp.Pick(m)] = "renew" // the first renewal of a role token is the one that consults the role
 	}
 	rc.Cfg("plan", strings.Join(plan, ","))
 	outs := make([]outcome, m)
